@@ -23,6 +23,7 @@ type line struct {
 	Args  M      `json:"args"`
 	Ret   M      `json:"ret"`
 	Panic string `json:"panic"`
+	Stale []string `json:"stale"` // live state vs ReadState(last checkpoint the backend received), after every op
 	St    M      `json:"st"`
 }
 
@@ -30,22 +31,26 @@ func runCase(w *bufio.Writer, caseNo int, nextOp func(h *harness, i int) (Op, bo
 	h := newHarness()
 	defer h.close()
 	enc := json.NewEncoder(w)
-	enc.Encode(line{Ev: "Reset", Case: caseNo, Args: M{}, Ret: M{}, St: h.project()})
+	prev := h.project()
+	enc.Encode(line{Ev: "Reset", Case: caseNo, Args: M{}, Ret: M{}, Stale: []string{}, St: prev})
 	for i := 1; ; i++ {
 		op, ok := nextOp(h, i)
 		if !ok {
 			return
 		}
+		cnt0 := h.be.count()
 		ret, pmsg := h.apply(op)
 		if op.Ev == "Prune" && pmsg == "" {
 			h.reacquire() // handles of removed tasks are dropped (unlinked tasks can then only be counted)
 		}
 		if pmsg != "" {
 			// the state lock was released by the deferred Unlock; the state may be half-updated: stop the case
-			enc.Encode(line{Ev: op.Ev, Case: caseNo, I: i, Args: op.Args, Ret: ret, Panic: pmsg, St: M{}})
+			enc.Encode(line{Ev: op.Ev, Case: caseNo, I: i, Args: op.Args, Ret: ret, Panic: pmsg, Stale: []string{}, St: M{}})
 			return
 		}
-		enc.Encode(line{Ev: op.Ev, Case: caseNo, I: i, Args: op.Args, Ret: ret, St: h.project()})
+		stale := h.persistCheck(op, prev, cnt0) // before project(), whose flush would mark the state modified
+		prev = h.project()
+		enc.Encode(line{Ev: op.Ev, Case: caseNo, I: i, Args: op.Args, Ret: ret, Stale: stale, St: prev})
 	}
 }
 
